@@ -27,4 +27,9 @@ CHECKS = {
   text='A reference model (header + list of (time, field bytes)) is run in lockstep with FieldsIO (Scalar, Rectilinear 1-3D, every available dtype): generated histories of create/add/crash/re-open (generic and specialised)/read/'
        're-initialise/fresh-process read with arbitrary bit patterns; for 14 small configurations every crash offset is enumerated. BlockDecomposition is enumerated for 1..64 ranks x all 1-D/2-D grids (<=9 quick, <=16 thorough) x both algorithms and sampled in 3-D.',
   note='Crash model: an interrupted append leaves a prefix of the record (sequential write stream). MPI-IO paths cannot run without mpi4py and are not covered. One defect (F1) found and fixed.'),
+ 'C11': dict(
+  technique='property-based testing: exhaustive grid-size/order enumeration and generated node-set pairs against exact Lagrange weights on independently selected nearest points; band-limited data for FFT transfers',
+  text='Pcoll/Rcoll of a real two-level Step are checked on monomials, row sums, R*P=I and an independent Lagrange matrix; every mesh_to_mesh interpolation row (periodic 2^k, Dirichlet 2^k-1, orders 2-8, nested shortcut on/off) is compared with exact rational Lagrange weights on the p nearest coarse points chosen in integer index arithmetic; '
+       '2-D/3-D as Kronecker products, per component for imex/comp2 meshes, type preservation; FFT prolongation exact on band-limited data and injection after it; identity transfers copy and keep the type.',
+  note='Restriction is checked for structure (positive multiple of the transposed interpolation of the restriction order, per component/dimension), not for a particular scaling, which the statement does not fix. Known finding F14 (periodic order == number of coarse points); F7 fixed.'),
 }
